@@ -20,6 +20,17 @@ def main():
     os.makedirs(os.path.join(cfront.VERIF, "evidence"), exist_ok=True)
     try:
         cfront.load_tus(cfront.engine_c_tus(), load=False)
+        # C++ translation units that whole-TU rules need (C37 exception flow): parse once here so quick checks are warm
+        repo = cfront.REPO
+        cxx = []
+        for d in ("src/xml", "src/user"):
+            dd = os.path.join(repo, d)
+            if os.path.isdir(dd):
+                cxx += sorted(f"{d}/{f}" for f in os.listdir(dd) if f.endswith(".cc"))
+        try:
+            cfront.load_tus(cxx, load=False)
+        except cfront.AnalysisError as e:
+            print(f"setup: note: some C++ TUs did not parse ({str(e)[:200]}); the checks that need them will report it")
     except cfront.AnalysisError as e:
         print(f"setup: front end failed: {e}")
         return 2
